@@ -539,7 +539,7 @@ func handleCommand(cmd *datastore.Request) (reply *datastore.Response, err error
 			datastore.AddToRepoLog(uuid, []string{cmd.String()})
 
 		case "merge":
-			uuids := cmd.CommandArgs(2)
+			uuids := cmd.CommandArgs(3)
 
 			parents := make([]dvid.UUID, len(uuids)+1)
 			parents[0] = dvid.UUID(uuid)
